@@ -78,10 +78,20 @@ class Recorder(HTMLParser):
 
 
 def tokenise(markup):
+    """Reference event stream: html.parser's feed() with its default configuration.  close() is NOT called (the library
+    never calls it: call-site obligation); an unterminated construct at the end of the input stays buffered, i.e. hidden."""
     r = Recorder()
     r.feed(markup)
-    r.close()
     return r.ev
+
+
+def expected(markup):
+    """(visible data, hidden data) of a document: reference events classified by the region spec; every token of the
+    markup that is not visible data (comment text, buffered remainder, attribute values) is expected to be absent."""
+    ev = tokenise(markup)
+    vis, hid = classify(ev)
+    rest = sorted(tokens([markup]) - tokens(vis) - tokens(hid))
+    return ev, vis, hid + rest
 
 
 TOKEN = re.compile(r"(?:VIS|HID)[a-z0-9]+")      # VISaVISb (inline neighbours) splits into two tokens
@@ -165,7 +175,57 @@ def via_epub(markup):
     return "\n".join(f"{ch.text}\n{ch.title}\n{ch.tables!r}" for ch in book.chapters)
 
 
-WRAPPERS = [("read_html", via_html), ("read_mhtml", via_mhtml), ("msg._html_to_text", via_msg), ("read_epub chapter", via_epub)]
+HINT = re.compile(r"<(html|head|body|p|div|br|span|table|tr|td|style|script)>", re.IGNORECASE)
+
+
+def is_html_body(body):
+    """Reference notion of an HTML mail body (position independent): an element of the hint vocabulary, <html or <body
+    occurs anywhere, or the body starts with a doctype."""
+    low = body.lstrip().lower()
+    return low.startswith("<!doctype") or "<html" in low or "<body" in low or HINT.search(body) is not None
+
+
+_REAL_MSG = {}
+ROUTE_SAMPLE = None      # documents sent through the real MSG reader by the bulk search (the rest: emulated routing statement)
+
+
+def via_msg_route(markup, real_reader=None):
+    """The body as read_msg_format_mail routes it: the real reader on the repository's basic_email.msg fixture with only the
+    body string substituted (directed documents and a sample of the grammar: ~15 ms per call); otherwise, or without the
+    fixture, the routing statement `_html_to_text(b) if _looks_like_html(b) else b` with the real helper functions."""
+    import os
+    from sharepoint2text.parsing.extractors.mail import msg_email_extractor as mod
+    fixture = os.path.join(os.path.dirname(os.path.dirname(os.path.dirname(os.path.dirname(os.path.abspath(mod.__file__))))),
+                           "tests", "resources", "mails", "basic_email.msg")
+    if real_reader is None:
+        real_reader = ROUTE_SAMPLE is None or markup in ROUTE_SAMPLE
+    if not real_reader or not os.path.exists(fixture) or not hasattr(mod, "MsOxMessage"):
+        return mod._html_to_text(markup) if mod._looks_like_html(markup) else markup
+    real = mod.MsOxMessage
+
+    class BodySubstituted:
+        def __init__(self, stream):
+            if "m" not in _REAL_MSG:
+                _REAL_MSG["m"] = real(stream)      # the fixture is parsed once; only `body` differs per call
+            self._real = _REAL_MSG["m"]
+
+        def __getattr__(self, name):
+            return getattr(self._real, name)
+
+        @property
+        def body(self):
+            return markup
+    mod.MsOxMessage = BodySubstituted
+    try:
+        with open(fixture, "rb") as fh:
+            mail = next(mod.read_msg_format_mail(io.BytesIO(fh.read()), path=fixture))
+    finally:
+        mod.MsOxMessage = real
+    return mail.body_plain
+
+
+WRAPPERS = [("read_html", via_html), ("read_mhtml", via_mhtml), ("msg._html_to_text", via_msg),
+            ("msg.read_msg_format_mail body", via_msg_route), ("read_epub chapter", via_epub)]
 
 
 def judge(observed, vis, hid):
@@ -179,14 +239,15 @@ def judge(observed, vis, hid):
 
 def check_markup(markup, only=None):
     """-> failure dict or None.  Expected sets: html.parser's own events classified by the spec."""
-    ev = tokenise(markup)
-    vis, hid = classify(ev)
+    ev, vis, hid = expected(markup)
     body = markup
     for name, fn in WRAPPERS:
         if only and not any(o in name for o in only):
             continue
         if "<title>" in markup and "epub" not in name:
             continue        # only the EPUB chapter keeps the <title> text with the chapter
+        if "read_msg_format_mail" in name and not is_html_body(markup):
+            continue        # a body without any HTML evidence is legitimately plain text
         try:
             out = fn(body)
         except Exception as e:  # noqa
@@ -318,12 +379,39 @@ def grammar():
              # input ending inside an unterminated comment / conditional comment / declaration: its content stays hidden
              "<p>VISa</p><p>VISb</p><!-- HIDa", "<p>VISa</p><!--[if mso]><p>HIDa</p>", "<p>VISa</p><p>VISb</p><!-- HIDa <b>HIDb</b>",
              "<p>VISa</p><noscript>HIDa", "<p>VISa</p><script>HIDa"]
+    # a textual "<r ...>" that the tokeniser does NOT treat as the start of element r (self-closing form, inside a comment,
+    # inside an attribute value, inside a CDATA section / another raw-text element), visible text, then a real element r
+    for r in removable:
+        for fake in (f"<{r} src=x/>", f"<!-- <{r} src=x> -->", f"<a title='<{r}>'>VISl</a>", f"<![CDATA[<{r}>]]>",
+                     f"<style>/* <{r}> */</style>" if r != "style" else f"<script>// <{r}></script>"):
+            docs.append(f"<p>VISa</p>{fake}<p>VISb</p><{r}>HIDa</{r}><p>VISc</p>")
+            docs.append(f"<p>VISa</p>{fake}<p>VISb</p><{r} type=x>HIDa</{r} ><p>VISc</p><!-- HIDb -->VISd")
+        docs.append(f"<p>VISa</p><{r}>HIDa</{r}><p>VISb</p><!-- </{r}> --><p>VISc</p>")
+    docs += long_prefix_docs()
     return docs
 
 
+def long_prefix_docs():
+    """HTML fragments (no <html>/<body>) whose first element of the hint vocabulary comes after a long removed prefix
+    (conditional comment + style block with attributes, as mail generators emit): "whatever the element contains" includes
+    its length."""
+    out = []
+    for n in (0, 50, 1000, 5000, 70000):
+        css = (".HIDcss td { font-family: Calibri }\n" * (n // 36 + 1))[:max(n, 36)]
+        out.append("<!--[if gte mso 9]><xml>HIDx</xml><![endif]-->\n<style type=\"text/css\">\n" + css + "</style>\n"
+                   "<div>VISa</div>\n<noscript><img src=p.gif>HIDn</noscript>\n<p>VISb</p>\n<script>var HIDs = 1;</script>\n"
+                   "<!-- HIDt -->\n<div>VISc</div>\n")
+        out.append(" " * n + "<!-- " + "HIDpad " * (n // 7) + "-->\n<p>VISa</p><script type=x>HIDa</script><p>VISb</p>")
+        out.append("<p>VISa</p>" + "<!-- " + "HIDpad " * (n // 7) + "-->" + "<noscript>" + "<img src=x>" * (n // 11) + "HIDa</noscript><p>VISb</p>")
+    return out
+
+
 def search(only=None, limit=None):
+    global ROUTE_SAMPLE
     n = 0
-    for d in grammar():
+    docs = grammar()
+    ROUTE_SAMPLE = set(docs[::8]) | set(docs[-160:])
+    for d in docs:
         n += 1
         if limit and n > limit:
             break
@@ -344,7 +432,21 @@ def find(req):
         r = replay_witness(w, kind, which)
         if r:
             return r
-    only = ("read_epub",) if which == "epub" and "epub_extractor" in ob else (("read_html", "read_mhtml", "msg") if "html_extractor" in ob else None)
+    if "epub_extractor" in ob:
+        only = ("read_epub",)
+    elif "msg_email_extractor" in ob:
+        only = ("msg",)
+    elif "mhtml_extractor" in ob:
+        only = ("read_mhtml",)
+    elif "html_extractor" in ob:
+        only = ("read_html", "read_mhtml", "msg")
+    else:
+        only = None
+    if "msg_email_extractor" in ob:
+        for d in long_prefix_docs():          # directed: evidence position / removed-content length
+            bad = check_markup(d, only=only)
+            if bad:
+                return bad
     return search(only=only)
 
 
